@@ -67,6 +67,11 @@ def _do_lookup(s, l):
             target = exp.to_table(l[1]) if l[4] else l[1]
             return list(s.column_names(target, dialect=l[2], normalize=l[3]))
         return _answer(f)
+    if kind == "has_column_col":
+        # through an exp.Column object, quoted or not (the two normalise differently)
+        return _answer(lambda: bool(s.has_column(l[1], exp.column(l[2], quoted=l[3]))))
+    if kind == "type_col":
+        return _answer(lambda: s.get_column_type(l[1], exp.column(l[2], quoted=l[3])).sql())
     if kind == "has_column_args":
         def f():
             target = exp.to_table(l[1]) if l[5] else l[1]
@@ -168,6 +173,13 @@ class Universe:
             for c in self.cols[:2]:
                 out.append(("has_column", n, c))
                 out.append(("type", n, c))
+            # the same column through Column objects, quoted and unquoted, in both orders across the sweep
+            c = self.cols[0]
+            for sp in (c, c.upper(), c.capitalize()):
+                out.append(("has_column_col", n, sp, True))
+                out.append(("type_col", n, sp, False))
+                out.append(("has_column_col", n, sp, False))
+                out.append(("type_col", n, sp, True))
         return out
 
 
@@ -347,8 +359,10 @@ def worker(ctx):
                     ops.append(("type", n, rng.choice(u.cols)))
                 elif k < 0.9:
                     ops.append(("find", n, rng.random() < 0.5, rng.random() < 0.5))
-                elif k < 0.95:
+                elif k < 0.93:
                     ops.append(("column_names_tbl", n))
+                elif k < 0.96:
+                    ops.append((rng.choice(["has_column_col", "type_col"]), n, rng.choice([str.lower, str.upper, str.capitalize, str])(rng.choice(u.cols)), rng.random() < 0.5))
                 elif rng.random() < 0.5:
                     ops.append(("column_names_args", n, rng.choice([None, "snowflake", "duckdb", "mysql"]), rng.choice([None, True, False]), rng.random() < 0.6))
                 else:
